@@ -131,10 +131,12 @@ static RPBlockAccess be_w8(uint32_t a, size_t n, const uint8_t *b) { return g_be
 struct Node {
     Ctx &c; RegP p; Wire *in, *out; WireSrc src; WireSnk snk; Ledger led; BlockAllocator ba; Backend be;
     bool serial; int mt;
+    RPMaybeFrame mf;   // one object reused for every iteration of the serve loop, as an application would
     Node(Ctx &ctx, Wire *i, Wire *o, bool ser, int memtype, size_t block, bool slab, bool src_octet, bool snk_octet) : c(ctx), in(i), out(o), serial(ser), mt(memtype) {
         src.c = &ctx; src.w = i; src.octet = src_octet; snk.c = &ctx; snk.w = o; snk.octet = snk_octet;
         led.c = &ctx; led.bs = block; led.slab = slab; ba = led.make();
         be.c = &ctx; be.led = &led; be.ws = memtype == 16 ? 2 : 1;
+        memset(&mf, 0, sizeof mf);
         regp_init(&p);
         if (memtype == 16) regp_use_memory16(&p, be_r16, be_w16); else regp_use_memory8(&p, be_r8, be_w8);
         regp_use_channel(&p, ser ? RP_EP_SERIAL : RP_EP_TCP, src.make(), snk.make());
@@ -160,7 +162,7 @@ static Served serve(Node &N, size_t payload_avail) {
     g_be = &N.be; N.be.avail_payload = payload_avail;
     size_t be0 = N.be.log.size(), out0 = N.out->data.size();
     uint64_t a0 = N.led.allocs, uf0 = N.led.unknown_free;
-    RPMaybeFrame mf; memset(&mf, 0, sizeof mf);
+    RPMaybeFrame &mf = N.mf;   // deliberately not cleared: whatever the previous iteration left behind is still in there
     const uint64_t budget = 16 * (N.in->data.size() - N.in->rpos) + 8 * N.led.bs + 512;
     S.recv_returned = WITH_BUDGET(c, budget, S.rc_recv = regp_recv(&N.p, &mf));
     c.ev(EV_API, 1, (uint64_t)(int64_t)S.rc_recv, (uint64_t)mf.error.id);
@@ -176,6 +178,13 @@ static Served serve(Node &N, size_t payload_avail) {
         }
         S.proc_returned = WITH_BUDGET(c, budget, S.rc_proc = regp_process(&N.p, &mf));
         c.ev(EV_API, 2, (uint64_t)(int64_t)S.rc_proc, 0);
+        if (S.proc_returned) regp_free(&N.p, mf.frame);
+    } else if (S.recv_returned) {
+        // reception failed. The documented loop goes on after its error handling, and regp_process() promises to
+        // ignore such a result; the receiver released its block itself, so this must neither execute nor free anything.
+        int rcp = 0;
+        S.proc_returned = WITH_BUDGET(c, budget, rcp = regp_process(&N.p, &mf));
+        c.ev(EV_API, 3, (uint64_t)(int64_t)rcp, 0);
         if (S.proc_returned) regp_free(&N.p, mf.frame);
     }
     S.calls.assign(N.be.log.begin() + (long)be0, N.be.log.end()); S.be_calls = S.calls.size();
@@ -600,7 +609,7 @@ struct RegpHarness : Harness {
                 bool w16 = (f.options & OPT_WS16) != 0;
                 int rc;
                 if (f.type == T_RREQ) rc = w16 ? regp_req_read16(&cli.p, f.addr, f.bsize) : regp_req_read8(&cli.p, f.addr, f.bsize);
-                else if (w16) { std::vector<uint16_t> wbuf(f.payload.size() / 2 + 1); memcpy(wbuf.data(), f.payload.data(), f.payload.size() & ~(size_t)1); rc = regp_req_write16(&cli.p, f.addr, f.payload.size() / 2, wbuf.data()); }
+                else if (w16) { std::vector<uint16_t> wbuf(f.payload.size() / 2 + 1); if (f.payload.size() >= 2) memcpy(wbuf.data(), f.payload.data(), f.payload.size() & ~(size_t)1); rc = regp_req_write16(&cli.p, f.addr, f.payload.size() / 2, wbuf.data()); }
                 else rc = regp_req_write8(&cli.p, f.addr, f.payload.size(), f.payload.empty() ? (const uint8_t *)"" : f.payload.data());
                 c.ev(EV_API, 10, (uint64_t)rc, c2s.data.size()); c.execs++;
                 Bytes wire(c2s.data.begin() + (long)before, c2s.data.end());
@@ -731,7 +740,7 @@ struct RegpHarness : Harness {
             rf.header.type = (RPFrameType)(o.geti("ftype") == T_WREQ ? T_WREQ : T_RREQ); rf.header.sequence = (uint16_t)o.geti("fseq"); rf.header.address = addr;
             size_t before = a2b.data.size();
             int rc = 0; bool fin = true;
-            std::vector<uint16_t> w16(pl.size() / 2 + 1); memcpy(w16.data(), pl.data(), pl.size() & ~(size_t)1);
+            std::vector<uint16_t> w16(pl.size() / 2 + 1); if (pl.size() >= 2) memcpy(w16.data(), pl.data(), pl.size() & ~(size_t)1);
             if (e == "req_read8" || e == "req_read16") {
                 bool w = e == "req_read16"; uint32_t n = (uint32_t)n64;
                 fin = WITH_BUDGET(c, 4096, rc = w ? regp_req_read16(&A.p, addr, n) : regp_req_read8(&A.p, addr, n));
